@@ -48,7 +48,14 @@ def run(ck: Check) -> None:
         env = gen.envelope(payload)
         if rng.random() < 0.5:
             gen.sign_env(env, rng.sample(ks, rng.randint(0, len(ks))), rng.random() < 0.5, rng)
-        ops = [rng.choice(["write", "load", "sign-raw", "sign-gpg", "write", "load", "retype-write"]) for _ in range(rng.randint(3, 10))]
+        if i % 5 == 1:
+            # key rotation draft: root metadata that lists only some of the keys that have already signed it
+            payload = gen.root_md(ks[:1], 1, [gen.key(7)], 1, version=rng.randint(1, 5))
+            env = gen.envelope(payload)
+            gen.sign_env(env, ks, rng.random() < 0.5, rng)
+        ops = [rng.choice(["write", "load", "sign-raw", "sign-gpg", "write", "load", "retype-write", "samesize-write"]) for _ in range(rng.randint(3, 10))]
+        if i % 5 == 1:
+            ops.insert(rng.randrange(len(ops) + 1), "sign-gpg")
         mem = copy.deepcopy(env)
         on_disk = False
         added = 0
@@ -91,6 +98,34 @@ def run(ck: Check) -> None:
                     if b != gen.oracle_bytes(mem):
                         ck.violation("writing a changed value (1 -> 1.0, True -> 1, ...) left the file with the old contents / a non-canonical file", {"value": proto.enc(mem)[:800]}, "retype-write-stale")
                         ok = False
+                    ck.evaluations += 1
+                    ck.count("fileop:" + op)
+                    continue
+                if op == "samesize-write":
+                    # two values Python's == cannot tell apart whose canonical files have the same size; and a same-size, same-value file that
+                    # is not canonical (members in another order): after write_metadata_to_file the file is the canonical form of the value written
+                    first = {"signatures": mem["signatures"], "signed": {"w": mem["signed"], "x": 1, "y": 1.0, "z": [True, 1]}}
+                    second = {"signatures": mem["signatures"], "signed": {"w": mem["signed"], "x": 1.0, "y": 1, "z": [1, True]}}
+                    impl.common.write_metadata_to_file(first, fn)
+                    impl.common.write_metadata_to_file(second, fn)
+                    ck.oracle_checks += 1
+                    if open(fn, "rb").read() != gen.oracle_bytes(second):
+                        ck.violation("writing a value over a same-size file holding a ==-equal but different JSON value left the old contents", {"value": proto.enc(second)[:800]}, "samesize-write-stale")
+                        ok = False
+                    canon = gen.oracle_bytes(second)
+                    a, b2 = canon.find(b'"x": 1.0'), canon.find(b'"y": 1')
+                    if 0 <= a < b2:
+                        planted = canon[:a] + b'"y": 1' + canon[a + 8:b2] + b'"x": 1.0' + canon[b2 + 6:]
+                        assert len(planted) == len(canon)
+                        with open(fn, "wb") as f:
+                            f.write(planted)
+                        impl.common.write_metadata_to_file(second, fn)
+                        ck.oracle_checks += 1
+                        if open(fn, "rb").read() != canon:
+                            ck.violation("writing over a same-size non-canonical file of the same value left it non-canonical", {"value": proto.enc(second)[:800]}, "samesize-write-noncanonical")
+                            ok = False
+                    mem = second
+                    env = copy.deepcopy(mem)
                     ck.evaluations += 1
                     ck.count("fileop:" + op)
                     continue
